@@ -94,6 +94,15 @@ func (m Match) validate(allowEmpty bool) error {
 		}
 	}
 
+	if m.Command != nil {
+		switch *m.Command {
+		case CICommand, LintCommand, WatchCommand:
+			// valid values
+		default:
+			return fmt.Errorf("unknown command: %s", *m.Command)
+		}
+	}
+
 	for _, s := range m.State {
 		switch s {
 		case StateAny, StateAdded, StateModified, StateRenamed, StateRemoved, StateUnmodified:
@@ -103,7 +112,7 @@ func (m Match) validate(allowEmpty bool) error {
 		}
 	}
 
-	if !allowEmpty && m.Path == "" && m.Name == "" && m.Kind == "" && m.Label == nil && m.Annotation == nil && m.Command == nil && m.For == "" && m.KeepFiringFor == "" && m.State == nil {
+	if !allowEmpty && m.Path == "" && m.Name == "" && m.Kind == "" && m.Label == nil && m.Annotation == nil && m.Command == nil && m.For == "" && m.KeepFiringFor == "" && len(m.State) == 0 {
 		return errors.New("ignore block must have at least one condition")
 	}
 
